@@ -152,6 +152,12 @@ row("struct_fn", [{"decl": "struct {n}_S {{ int i; double d; }};"},
                    "c_only_decl": "void {n}_inout(struct {n}_S *s +intent(inout))"},
                   {"decl": "{n}_S {n}_ret(int i, double d)", "c_only_decl": "struct {n}_S {n}_ret(int i, double d)"}],
     wraps=CF, doc="docs/struct.rst; struct.yaml")
+# a struct whose only C_PTR-typed parts are its own pointer members (struct.yaml Cstruct_ptr: "char *cfield; const double *const_dvalue")
+row("struct_ptr_member", [{"decl": "struct {n}_S {{ int n; double *vals; const char *label; }};"},
+                          {"decl": "int {n}_count(int k)"}],
+    wraps=CF, doc="docs/struct.rst; struct.yaml Cstruct_ptr (pointer members)")
+row("struct_ptr_member_only", [{"decl": "struct {n}_S {{ const int *first; }};"}],
+    wraps=CF, doc="docs/struct.rst; struct.yaml Cstruct_ptr (pointer members)")
 # ---- overloads / defaults / templates / generic
 row("overload2", [{"decl": "int {n}(int a)"}, {"decl": "int {n}(double a, int b)"}], langs=CXX, wraps=ALLW,
     doc="tutorial.yaml OverloadedFunction / UseDefaultOverload")
